@@ -5,10 +5,10 @@
 # 3. stores it under /verif/seeded/<seed-id>/
 set -u
 SRC=$1; SID=$2; TIER=$3; shift 3
-WT=/tmp/wt/verify
+WT=/tmp/wt/verify_$SID
 export GOFLAGS=-mod=mod GOPROXY=off
 unset GOTOOLCHAIN
-[ -d $WT ] || git -C /repo worktree add -q $WT HEAD
+[ -d $WT ] || git -C /repo worktree add -q --detach $WT HEAD
 git -C $WT checkout -q --detach $(git -C /repo rev-parse HEAD) 2>/dev/null
 git -C $WT checkout -q -- . ; git -C $WT clean -fdq
 DEMO=$(ls $SRC/demo_test.go $SRC/demo_main.go 2>/dev/null | head -1)
@@ -31,17 +31,22 @@ git -C $WT checkout -q -- . ; git -C $WT clean -fdq
 case "$WITH" in *FAIL*) W1=fails;; *) W1="DOES-NOT-FAIL";; esac
 case "$WITHOUT" in *ok*) W2=passes;; *) W2="DOES-NOT-PASS";; esac
 res "demo with patch: $W1 ; without: $W2 ; suite: ${SUITE:-green}"
-# run the checks against /repo with the patch applied
-git -C /repo apply $SRC/patch.diff || { res "cannot apply to /repo"; exit 3; }
+# run the checks against a patched copy of the repository (scratch worktree), with a private
+# VERIF_DIR so that evidence / replays of the unchanged tree are not overwritten and background
+# runs that use /repo are not disturbed
+git -C $WT apply $SRC/patch.diff || { res "cannot apply"; exit 3; }
+EV=/tmp/wt/verif_eval_$SID; mkdir -p $EV
+rsync -a --delete /verif/checks /verif/harness /verif/known_findings.json $EV/ 2>/dev/null
 OUT=""
 for id in "$@"; do
   T0=$(date +%s)
-  timeout 3600 /verif/bin/check $id --tier $TIER > /tmp/seed_${SID}_$id.txt 2>&1; RC=$?
+  VERIF_DIR=$EV timeout 3600 /verif/bin/check $id --tier $TIER --repo $WT > /tmp/seed_${SID}_$id.txt 2>&1; RC=$?
   V=$(grep -c "^VIOLATION" /tmp/seed_${SID}_$id.txt)
   I=$(grep -c "^INCONCLUSIVE" /tmp/seed_${SID}_$id.txt)
   OUT="$OUT $id:exit=$RC,violations=$V,inconclusive=$I,secs=$(( $(date +%s) - T0 ))"
 done
-git -C /repo checkout -q -- . ; git -C /repo status --short | grep -v '^??' | head -3
+git -C $WT checkout -q -- . ; git -C $WT clean -fdq
+rm -rf $EV
 res "checks ($TIER):$OUT"
 D=/verif/seeded/$SID; mkdir -p $D
 cp $SRC/patch.diff $D/patch.diff; cp "$DEMO" $D/$(basename $DEMO); [ -f $SRC/notes.md ] && cp $SRC/notes.md $D/notes.md
@@ -54,10 +59,11 @@ if os.path.exists(d+'/meta.json'):
     meta=json.load(open(d+'/meta.json'))
 meta.update({"seed_id":sid,"breaks_property":sid.split('-')[0],"demo_place_in":place,
   "confirmed":{"suite_with_patch":suite,"demo_with_patch":w1,"demo_without_patch":w2},
-  "what_was_run":"tools/eval_seed.sh: git apply in a scratch worktree, go build ./..., go test -vet=off -count=1 ./..., demo with / without the patch; then git -C /repo apply, check <ids>, git -C /repo checkout -- ."})
+  "what_was_run":"tools/eval_seed.sh: git apply in a scratch worktree, go build ./..., go test -vet=off -count=1 ./..., demo with / without the patch; then the same patch applied to a scratch worktree of /repo's HEAD and `check <ids> --repo <worktree>` (equivalent to git -C /repo apply / checkout, used so that background runs on /repo are not disturbed)"})
 meta.setdefault("check_results",{})[tier]=out.strip()
 notes=d+'/notes.md'
 if os.path.exists(notes):
     meta["needs_to_manifest_and_description"]=open(notes).read()[:1500]
 json.dump(meta,open(d+'/meta.json','w'),indent=1)
 PY
+git -C /repo worktree remove --force $WT 2>/dev/null
